@@ -47,6 +47,11 @@ def msg(e, j=0):
     return "m:%s:%d" % (e, j)
 
 
+def _datum(x):
+    """What was delivered, in a hashable and JSON-friendly form (texts and None as they are)."""
+    return x if isinstance(x, str) or x is None else "<%s> %r" % (type(x).__name__, x)
+
+
 class World:
     """The explored state: the real hub, handles on its endpoints / sinks / sources, and the reference model."""
 
@@ -119,8 +124,8 @@ class World:
             for x in io.sent:
                 if isinstance(io, rm.FakeSocket):
                     x = x[0].decode("utf-8")
-                sent[(name, x)] += 1
-        sunk = Counter((k, x) for k, s in self.sinks.items() for x in s.got)
+                sent[(name, _datum(x))] += 1
+        sunk = Counter((k, _datum(x)) for k, s in self.sinks.items() for x in s.got)
         calls = Counter({s: o.calls for s, o in self.srcs.items() if o.calls})
         return sent, sunk, calls, polls
 
@@ -456,9 +461,12 @@ def get_adapter(name):
     return _ADAPTERS[name]
 
 
-def tlc_part(ctx, pool, cfg_file, tag):
-    tla = os.path.join(os.path.dirname(os.path.dirname(os.path.abspath(__file__))), "tla")
-    info = tb.run_tlc(os.path.join(tla, "Router.tla"), os.path.join(tla, cfg_file), tag)
+def _tla_dir():
+    return os.path.join(os.path.dirname(os.path.dirname(os.path.abspath(__file__))), "tla")
+
+
+def tlc_part(ctx, pool, cfg_file, handle):
+    info = tb.wait_tlc(handle)
     ctx.log("TLC %s: %d distinct states, %d generated, depth %s, %.1fs" % (cfg_file, info["distinct"], info["generated"],
                                                                          info["depth"], info["wall_s"]))
     try:
@@ -476,7 +484,9 @@ def tlc_part(ctx, pool, cfg_file, tag):
     for m in res["mismatches"]:
         case = {"kind": "tlc", "cfg": cfg_file, "path": [_jact(a) for a in m["path"]], "action": _jact(m["action"]),
                 "expected_state": tb.cstr(m["expected"])}
-        nodata = m["action"][0] == "recv" and m["expected"]["obs"]["ret"] == "none"
+        eo, oo = m["expected"]["obs"], m["observed"]["obs"]
+        nodata = (m["action"][0] == "recv" and eo["ret"] == "none" and not eo["sent"] and not eo["sunk"]
+                  and bool(oo["sent"] or oo["sunk"]))
         ctx.violation("tlc_nodata_delivered" if nodata else "tlc_conformance", case, observed=tb.cstr(m["observed"]),
                       flags={"no_data_receive": nodata}, detail="%d edges of the TLC graph share this execution" % m["edges"])
     cov = {k: res[k] for k in ("states", "transitions", "abstract_states", "executions", "edges_validated",
@@ -503,24 +513,37 @@ def run(ctx):
     if thorough and os.environ.get("VERIF_C19_DEPTH"):
         plan[0] = ("dbl2", int(os.environ["VERIF_C19_DEPTH"]))
     results = []
-    with ctx.pool(ctx.workers if thorough else min(ctx.workers, 12)) as pool:
-        for cfg, depth in plan:
-            name = "%s:%d:%s" % (cfg, ctx.seed, full)
-            results.append((name, explorer.explore(ctx, MOD, name, depth, pool, chunk=400 if thorough else 60)))
-        cov = explorer.merge(results)
-        cov["hx_states"], cov["hx_transitions"] = cov["states"], cov["transitions"]
-        cov["hx_histories_replayed_from_scratch"] = cov["traces_validated_against_impl"]
-        if tb.tlc_available():
-            t = tlc_part(ctx, pool, "Router.cfg" if thorough else "RouterQuick.cfg", "c19-%s-%d" % (ctx.tier, os.getpid()))
-            cov["tlc"] = t
-            cov["traces_validated_against_impl"] = t["edges_validated"]
-            cov["traces_validated_rule"] = ("edges of TLC's complete state graph whose successor state equals the abstraction "
-                                            "of the real hub after the same action (all edges, not a sample); the HX "
-                                            "from-scratch history replays are counted in hx_histories_replayed_from_scratch")
-            cov["tlc_states"], cov["tlc_transitions"] = t["states"], t["transitions"]
-        else:
-            cov["tlc"] = "tlc is not on PATH: TLC conformance skipped, direct exploration (Part 1) only"
-            ctx.notes.append(cov["tlc"])
+    cfg_file = "Router.cfg" if thorough else "RouterQuick.cfg"
+    handle = None
+    if tb.tlc_available():      # TLC (one Java thread) works on the model while the direct exploration runs
+        handle = tb.start_tlc(os.path.join(_tla_dir(), "Router.tla"), os.path.join(_tla_dir(), cfg_file),
+                              "c19-%s-%d" % (ctx.tier, os.getpid()))
+    try:
+        # quick tier: everything in this process (a spawned worker would spend longer importing the library than working)
+        with ctx.pool(ctx.workers if thorough else 1) as pool:
+            for cfg, depth in plan:
+                name = "%s:%d:%s" % (cfg, ctx.seed, full)
+                results.append((name, explorer.explore(ctx, MOD, name, depth, pool, chunk=400)))
+            cov = explorer.merge(results)
+            cov["depth_completed_per_configuration"] = {n.split(":")[0]: r["max_depth_completed"] for n, r in results}
+            cov["hx_states"], cov["hx_transitions"] = cov["states"], cov["transitions"]
+            cov["hx_histories_replayed_from_scratch"] = cov["traces_validated_against_impl"]
+            if handle is not None:
+                h, handle = handle, None
+                t = tlc_part(ctx, pool, cfg_file, h)
+                cov["tlc"] = t
+                cov["traces_validated_against_impl"] = t["edges_validated"]
+                cov["traces_validated_rule"] = (
+                    "edges of TLC's complete state graph whose successor state equals the abstraction of the real hub "
+                    "after the same action (all edges, not a sample); the HX from-scratch history replays are counted in "
+                    "hx_histories_replayed_from_scratch")
+                cov["tlc_states"], cov["tlc_transitions"] = t["states"], t["transitions"]
+            else:
+                cov["tlc"] = "tlc is not on PATH: TLC conformance skipped, direct exploration (Part 1) only"
+                ctx.notes.append(cov["tlc"])
+    finally:
+        if handle is not None:
+            tb.abort_tlc(handle)
     _diverse_first(ctx)
     cov["rule"] = ("BFS over histories of hub calls on the real Comms with endpoint doubles / a UDPObject on a fake socket; "
                    "alphabet = {setForwardData, deleteForwardingRule} x names^2, setDataSink x names x {k1,k2,None}, "
